@@ -122,6 +122,27 @@ func largeCase(t *rapid.T, g *gm) []int {
 	if len(es) > 0 {
 		g.applyBatch(Op{K: "batch", DS: "a", Via: "store", Ents: es})
 	}
+	// sometimes a very large batch (around the job engine's default batch size of 10000) whose late
+	// element is invalid (a null inside a reference array): the write is rejected and, being one
+	// batch, leaves nothing behind - not even its first thousands of entities
+	if rapid.IntRange(0, 3).Draw(t, "hugeRejected") == 0 {
+		hn := rapid.SampledFrom([]int{257, 1001, 10001, 10500, 12500}).Draw(t, "hugeN")
+		bad := hn - 1 - rapid.IntRange(0, hn/5).Draw(t, "badFromEnd")
+		hs := make([]*kit.Ent, hn)
+		for j := range hs {
+			hs[j] = ent(fmt.Sprintf("%s:h%d", p, j), map[string]any{p + ":p0": "huge"}, nil, false)
+		}
+		hs[bad].Refs[p+":r0"] = []any{nil}
+		op := Op{K: "batch", DS: "a", Via: "store", Ents: hs}
+		if err := execOp(g.h, op); err == nil {
+			g.fail("a batch of %d entities whose element %d carries a null reference was accepted", hn, bad)
+		}
+		g.record(Op{K: "rejectedBatch", DS: "a", N: hn, Lo: true})
+		g.cls["huge-rejected-batch"] = true
+		if hn > 10000 {
+			g.cls["huge-rejected-batch>10000"] = true
+		}
+	}
 	g.cls[fmt.Sprintf("n-%d00s", n/100)] = true
 	nl := rapid.IntRange(1, 3).Draw(t, "nlim")
 	lim := make([]int, nl)
